@@ -18,6 +18,19 @@ def main():
             fails.append({"schema": p["schema"], "output": p["output"], "error": f"not JSON: {e}"})
             continue
         # floats: python reads 1.0 as float; jsonschema treats 1.0 as integer per the spec
+        # python's re gives \d \w \s (and their complements) Unicode meaning on str patterns, JSON Schema
+        # (ECMA-262) and the engine give them ASCII meaning: schemas with such patterns are left to the Rust validator
+        def has_class_escape(x):
+            if isinstance(x, dict):
+                pat = x.get("pattern")
+                if isinstance(pat, str) and any(c in pat for c in ("\\d", "\\w", "\\s", "\\D", "\\W", "\\S")):
+                    return True
+                return any(has_class_escape(v) for v in x.values())
+            if isinstance(x, list):
+                return any(has_class_escape(v) for v in x)
+            return False
+        if has_class_escape(schema):
+            continue
         try:
             errs = sorted(Draft202012Validator(schema, format_checker=fc).iter_errors(inst), key=str)
         except Exception as e:
@@ -30,6 +43,10 @@ def main():
                 continue
             # python's datetime has no year 0000 (RFC 3339 allows it): not a verdict
             if e.validator == "format" and isinstance(e.instance, str) and e.instance.startswith("0000-"):
+                continue
+            # python's re gives \d \w \s (and their complements) Unicode meaning on str patterns, JSON Schema
+            # (ECMA-262) and the engine give them ASCII meaning: not a verdict (the Rust validator decides)
+            if e.validator == "pattern" and isinstance(e.validator_value, str) and any(x in e.validator_value for x in ("\\d", "\\w", "\\s", "\\D", "\\W", "\\S")):
                 continue
             fails.append({"schema": p["schema"], "output": p["output"], "error": e.message[:200]})
     print(json.dumps({"pairs": len(pairs), "failures": fails[:20], "n_failures": len(fails)}))
